@@ -1163,11 +1163,44 @@ where
                             }
                         }
                         "Extract" => {
-                            if let Some(ty) = type_params
+                            if let Some([ty, filter]) = type_params
                                 .as_ref()
-                                .and_then(|type_params| type_params.params.get(1))
+                                .and_then(|type_params| type_params.params.get(..2))
                             {
-                                runtime_types.extend(self.infer_runtime_type(ty));
+                                // the members of the first argument that fit the second: the
+                                // second one alone may be wider than its constructor (`object`
+                                // holds functions and arrays, `{}` holds numbers, ...)
+                                let fits_all = matches!(
+                                    &**filter,
+                                    TsType::TsTypeLit(TsTypeLit { members, .. }) if members.is_empty()
+                                );
+                                let filter = self.infer_runtime_type(filter);
+                                let extracted = self
+                                    .infer_runtime_type(ty)
+                                    .into_iter()
+                                    .filter(|ty| {
+                                        fits_all
+                                            || filter.contains(&None)
+                                            || filter.contains(ty)
+                                            || ty.as_deref().map_or(true, |name| {
+                                                filter.contains(&Some(atom!("Object")))
+                                                    && !matches!(
+                                                        name,
+                                                        "String"
+                                                            | "Number"
+                                                            | "Boolean"
+                                                            | "BigInt"
+                                                            | "Symbol"
+                                                            | "null"
+                                                    )
+                                            })
+                                    })
+                                    .collect::<IndexSet<_>>();
+                                if extracted.is_empty() {
+                                    runtime_types.extend(filter);
+                                } else {
+                                    runtime_types.extend(extracted);
+                                }
                             } else {
                                 runtime_types.insert(Some(atom!("Object")));
                             }
